@@ -297,14 +297,14 @@ def canaries():
 
 
 def parts(tier):
-    n = 4 if tier == 'quick' else 5
+    n = 4 if tier == 'quick' else 6
     out = []
     for name in ('Select', 'Poll', 'EPoll'):
         out.append(Part(name, make_harness(name, n), bounds={'poller': name, 'history_length': n, 'descriptors': 2,
                         'ops': 'addReader/addWriter/removeReader/removeWriter/discard/close/open(re-use of number)/poll iteration with chosen readiness'},
                         encoded=ENC[name], budget_s=80 if tier == 'quick' else 1500))
     for name in ('Select', 'Poll', 'EPoll'):
-        nh, nf = (4, 1) if tier == 'quick' else (4, 2)
+        nh, nf = (4, 1) if tier == 'quick' else (5, 2)
         out.append(Part('hangup-' + name, make_harness(name, nh, n_fds=nf, hangups=True),
                         bounds={'poller': name, 'history_length': nh, 'descriptors': nf,
                                 'ops': 'as above plus poll iterations in which the peer has hung up, with or without unread data'},
